@@ -155,6 +155,8 @@ def history(cfg, log, async_, rng, n_steps, recs, meta):
             seg = bytes(b ^ (1 << rng.randrange(8)) if rng.random() < 0.5 else b for b in old[off:off + n])
         else:
             seg = bytes(rng.randrange(256) for _ in range(n))
+        if not repeat and off > 0 and rng.random() < 0.06 and old[0:n] != old[off:off + n]:
+            seg = old[0:n]            # the update happens to carry the bytes the block BEGINS with (at another offset)
         prev_update = (off, seg)
         calls.clear()
         # sometimes an observer applies ANOTHER update to the same structure from inside its callback (a client that
